@@ -41,9 +41,10 @@ const (
 	opRestart
 	opQuery
 	opChunkQuery
+	opTxOpen // Append (uncommitted) -> DB.Compact -> Commit
 )
 
-var opNames = [...]string{"tx", "rollback", "delete", "compact", "compact-ooo", "clean-tombstones", "restart", "query", "chunk-query"}
+var opNames = [...]string{"tx", "rollback", "delete", "compact", "compact-ooo", "clean-tombstones", "restart", "query", "chunk-query", "tx-open-compact-commit"}
 
 type smp struct {
 	S int   `json:"s"`
@@ -201,6 +202,8 @@ type runner struct {
 	pattern []string
 	classes map[string]int
 	goViol  []string
+	lost    []string // acknowledged samples missing after 'compaction while an appender is open'
+	queue   []hop    // scripted follow-up ops of the generator
 	nextVal int64
 	markers  map[int]int // series records written per series
 	restarts int
@@ -335,6 +338,95 @@ func (r *runner) apply(o hop) bool {
 			first = gallina.Some(gallina.Z(o.Reqs[0].T))
 		}
 		r.steps = append(r.steps, fmt.Sprintf("SOp (Commit %s %s %s) %s", gallina.List(accs), gallina.List(logged), first, gObs(r.d, r.n)))
+	case opTxOpen:
+		// An appender stays open across a head compaction: Append (uncommitted), DB.Compact, Commit.
+		// Model: the Compact step, then the Commit step (the accepted samples are read from the head
+		// as usual).  Go-side rule: a sample above everything the head had when the appender was
+		// created, appended without error and committed without error, must be returned afterwards.
+		vBefore := view(r.d, r.n)
+		before := multiset(vBefore)
+		_, hmaxBefore, _ := r.d.HeadTimes()
+		otx := r.d.Begin(false)
+		res := make([]tsdbx.ErrKind, len(o.Reqs))
+		for i, q := range o.Reqs {
+			res[i] = tsdbx.Kind(otx.Append(lbl(q.S), q.T, float64(q.V), tsdbx.KFloat))
+		}
+		if err := r.d.Compact(); err != nil {
+			r.goViol = append(r.goViol, fmt.Sprintf("Compact (appender open) returned %v", err))
+			return false
+		}
+		for _, xs := range view(r.d, r.n).ooo {
+			if len(xs) > 0 { // see opCompact: truncateOOO left chunks behind; not modelled
+				_ = otx.Rollback()
+				r.classes["stopped-ooo-compaction-kept-head-chunks"]++
+				r.stopped = true
+				return false
+			}
+		}
+		pendSet := map[int]bool{}
+		var pend []int
+		for i, q := range o.Reqs {
+			if res[i] == tsdbx.OK && !pendSet[q.S] {
+				pendSet[q.S] = true
+				pend = append(pend, q.S)
+			}
+		}
+		r.steps = append(r.steps, fmt.Sprintf("SOp (CompactPending %s) %s", gSel(pend), gObs(r.d, r.n)))
+		if err := otx.Commit(); err != nil {
+			r.goViol = append(r.goViol, fmt.Sprintf("Commit (after compaction) returned %v", err))
+			return false
+		}
+		vAfter := view(r.d, r.n)
+		after := multiset(vAfter)
+		var logged, accs []string
+		for i := 0; i < r.n; i++ {
+			if ref, ok := vAfter.ref[i]; ok {
+				if old, was := vBefore.ref[i]; !was || old != ref {
+					logged = append(logged, fmt.Sprintf("(%s, None)", gallina.Z(int64(i))))
+					r.markers[i]++
+				}
+			}
+		}
+		for k, c := range after {
+			after[k] = c - before[k]
+		}
+		d.Reqs = o.Reqs
+		seenMax := map[int]int64{}
+		for i, q := range o.Reqs {
+			r.classes["append-"+res[i].String()]++
+			kio, kooo := key{q.S, false, q.T, float64(q.V)}, key{q.S, true, q.T, float64(q.V)}
+			cls := ""
+			switch {
+			case after[kio] > 0:
+				after[kio]--
+				cls = "false"
+				r.classes["accepted-in-order"]++
+			case after[kooo] > 0:
+				after[kooo]--
+				cls = "true"
+				r.classes["accepted-ooo"]++
+			}
+			if cls != "" {
+				accs = append(accs, fmt.Sprintf("(%s, %s, %s)", gallina.Z(int64(q.S)), gSample(q.T, q.V), cls))
+				r.acked[q.S] = append(r.acked[q.S], q.T)
+			}
+			if res[i] == tsdbx.OK {
+				logged = append(logged, fmt.Sprintf("(%s, Some (%s))", gallina.Z(int64(q.S)), gSample(q.T, q.V)))
+				prev, had := seenMax[q.S]
+				if q.T > hmaxBefore && (!had || q.T > prev) {
+					seenMax[q.S] = q.T
+					got, err := r.d.SampleTimes(q.T, q.T, tsdbx.MatchEq("a", fmt.Sprintf("s%d", q.S)))
+					if err != nil || len(got[lblName(q.S)]) != 1 {
+						r.lost = append(r.lost, fmt.Sprintf("series s%d t=%d (float, Appender): appended and committed without error across a head compaction, but not returned by the following query", q.S, q.T))
+					}
+				}
+			}
+		}
+		first := "None"
+		if len(o.Reqs) > 0 {
+			first = gallina.Some(gallina.Z(o.Reqs[0].T))
+		}
+		r.steps = append(r.steps, fmt.Sprintf("SOp (Commit %s %s %s) %s", gallina.List(accs), gallina.List(logged), first, gObs(r.d, r.n)))
 	case opDelete:
 		// finding pattern: a selected series has an out-of-order head sample inside the range
 		hv := view(r.d, r.n)
@@ -415,6 +507,24 @@ func (r *runner) apply(o hop) bool {
 					r.stopped = true
 					return false
 				}
+			}
+		}
+		// Not modelled: WAL checkpoints.  If a checkpoint exists and the restart will compute a
+		// minValidTime below the current one (a truncation happened without an in-order block up to
+		// it: the block was empty or was deleted), what the WAL still holds in between decides the
+		// outcome; the model replays the whole log.  The history ends before such a restart.
+		if cps, _ := filepath.Glob(filepath.Join(r.d.Dir, "wal", "checkpoint.*")); len(cps) > 0 {
+			_, _, mvBefore := r.d.HeadTimes()
+			b := int64(math.MinInt64)
+			for _, bl := range r.d.Blocks() {
+				if !bl.OOO && bl.MaxT > b {
+					b = bl.MaxT
+				}
+			}
+			if b < mvBefore {
+				r.classes["stopped-restart-below-minvalid-after-wal-checkpoint"]++
+				r.stopped = true
+				return false
 			}
 		}
 		r.restarts++
@@ -580,8 +690,63 @@ func (r *runner) pickTime(g *gen.Rand, s int) int64 {
 	}
 }
 
+// nextBlockMax is the MaxTime of the block the next head compaction would cut.
+func (r *runner) nextBlockMax() (int64, bool) {
+	mi, ma, _ := r.d.HeadTimes()
+	if tsdbx.Unset(mi, ma) || mi == math.MaxInt64 {
+		return 0, false
+	}
+	return (mi/blockRange)*blockRange + blockRange, true
+}
+
 func (r *runner) genOp(g *gen.Rand) hop {
+	if len(r.queue) > 0 {
+		o := r.queue[0]
+		r.queue = r.queue[1:]
+		return o
+	}
 	x := g.Intn(100)
+	// boundary scenario: samples exactly on / next to the next block's MaxTime, a Delete whose bounds
+	// land on / straddle it, THEN the head compaction, a restart and a query
+	if R, ok := r.nextBlockMax(); ok && x < 9 {
+		_, ma, _ := r.d.HeadTimes()
+		s := g.Intn(r.n)
+		all := make([]int, r.n)
+		for i := range all {
+			all[i] = i
+		}
+		var seq []hop
+		var reqs []smp
+		for _, t := range []int64{R + g.PickI64(-1, 0, 0, 1), R + g.PickI64(0, 1, 400)} {
+			if t > ma {
+				reqs = append(reqs, smp{S: s, T: t, V: r.val()})
+				ma = t
+			}
+		}
+		if len(reqs) > 0 {
+			seq = append(seq, hop{Kind: opTx, Reqs: reqs})
+		}
+		far := R + 1400 + g.Range(0, 90) // not so far that a second block is cut
+		if far > ma {
+			seq = append(seq, hop{Kind: opTx, Reqs: []smp{{S: g.Intn(r.n), T: far, V: r.val()}}})
+		}
+		lo := R - g.PickI64(1, 300, 700, 5000)
+		hi := R + g.PickI64(-1, 0, 0, 0, 1, 400)
+		seq = append(seq, hop{Kind: opDelete, Mint: lo, Maxt: hi, Sel: all}, hop{Kind: opCompact}, hop{Kind: opRestart}, fullQuery(r.n, false))
+		r.queue = seq[1:]
+		return seq[0]
+	}
+	// compaction while an appender is open
+	if _, ok := r.nextBlockMax(); ok && x >= 9 && x < 14 {
+		_, ma, _ := r.d.HeadTimes()
+		o := hop{Kind: opTxOpen}
+		k := 1 + g.Intn(3)
+		for i := 0; i < k; i++ {
+			o.Reqs = append(o.Reqs, smp{S: g.Intn(r.n), T: ma + g.PickI64(0, 1, 30, 900, 1600, 2600), V: r.val()})
+		}
+		r.queue = []hop{fullQuery(r.n, false)}
+		return o
+	}
 	switch {
 	case x < 46:
 		k := 1 + g.Intn(4)
@@ -694,6 +859,22 @@ func corpus() []fixed {
 			txs(smp{0, 100, 1}, smp{1, 150, 2}), txs(smp{0, 900, 3}, smp{1, 950, 4}), txs(smp{0, 1700, 5}, smp{1, 1800, 6}), txs(smp{0, 2700, 7}),
 			{Kind: opCompact}, {Kind: opDelete, Mint: 120, Maxt: 1750, Sel: all2}, fullQuery(2, false),
 			{Kind: opClean}, fullQuery(2, false), {Kind: opRestart}, fullQuery(2, true)}},
+		// tombstone ending exactly on the first sample left in the head after the compaction (= the
+		// block's MaxTime): the restart must keep it (loadWAL: itv.Maxt < minValidTime drops)
+		{"tombstone-ends-on-block-maxtime-then-restart", 1, 0, []hop{
+			txs(smp{0, 100, 1}), txs(smp{0, 1000, 2}), txs(smp{0, 2400, 3}),
+			{Kind: opDelete, Mint: 500, Maxt: 1000, Sel: []int{0}}, fullQuery(1, false), {Kind: opCompact}, fullQuery(1, false),
+			{Kind: opRestart}, fullQuery(1, false), fullQuery(1, true)}},
+		// tombstone straddling the block boundary of the next compaction
+		{"tombstone-straddles-block-maxtime-then-restart", 2, 0, []hop{
+			txs(smp{0, 100, 1}, smp{1, 999, 2}), txs(smp{0, 600, 3}, smp{1, 1000, 4}), txs(smp{0, 1000, 5}, smp{1, 1001, 6}),
+			txs(smp{0, 1400, 7}), txs(smp{0, 2400, 8}),
+			{Kind: opDelete, Mint: 500, Maxt: 1500, Sel: []int{0}}, {Kind: opDelete, Mint: 999, Maxt: 1000, Sel: []int{1}},
+			{Kind: opCompact}, fullQuery(2, false), {Kind: opRestart}, fullQuery(2, false), fullQuery(2, true)}},
+		// an appender open across a head compaction that removes all chunks of its series
+		{"appender-open-across-head-compaction", 2, 0, []hop{
+			txs(smp{0, 100, 1}), txs(smp{0, 200, 2}), txs(smp{1, 2500, 3}),
+			{Kind: opTxOpen, Reqs: []smp{{0, 2600, 4}, {1, 2601, 5}}}, fullQuery(2, false), {Kind: opRestart}, fullQuery(2, false)}},
 		// ---- reproducers of the findings (see notes/C01.md) ----
 		{"finding-delete-then-ooo-compaction-resurrects", 1, 100000, []hop{
 			txs(smp{0, 100, 1}), txs(smp{0, 200, 2}), txs(smp{0, 300, 3}), txs(smp{0, 150, 4}),
@@ -731,6 +912,8 @@ func main() {
 		cd      caseDesc
 		classes map[string]int
 		goViol  []string
+	lost    []string // acknowledged samples missing after 'compaction while an appender is open'
+	queue   []hop    // scripted follow-up ops of the generator
 		n       int
 		win     int64
 	}
@@ -782,7 +965,7 @@ func main() {
 		if fx != nil {
 			cd.Corpus = fx.name
 		}
-		return outcome{term: term, sig: strings.Join(r.steps, ";"), cd: cd, classes: r.classes, goViol: r.goViol, n: n, win: win}
+		return outcome{term: term, sig: strings.Join(r.steps, ";"), cd: cd, classes: r.classes, goViol: r.goViol, lost: r.lost, n: n, win: win}
 	}
 
 	cp := corpus()
@@ -821,6 +1004,9 @@ func main() {
 		for _, v := range o.goViol {
 			meta.GoViol = append(meta.GoViol, gallina.GoViolation{ID: fmt.Sprint(id), Shape: "harness-" + o.cd.Shape, What: v})
 		}
+		for _, v := range o.lost {
+			meta.GoViol = append(meta.GoViol, gallina.GoViolation{ID: fmt.Sprint(id), Shape: "open-appender-compaction-lost-sample", What: v})
+		}
 		cf.Add(strings.Replace(o.term, "@ID@", gallina.Z(int64(id)), 1))
 		meta.Case(id, o.cd)
 		meta.Evaluations++
@@ -837,6 +1023,74 @@ func main() {
 		}
 		id++
 	}
+	// "compaction while an appender is open" for every sample kind and both appender interfaces,
+	// judged on the Go side (histograms are not in the Coq model)
+	for _, v2 := range []bool{false, true} {
+		for _, k := range []tsdbx.SampleKind{tsdbx.KFloat, tsdbx.KHistogram, tsdbx.KFloatHistogram} {
+			iface := "Appender"
+			if v2 {
+				iface = "AppenderV2"
+			}
+			name := fmt.Sprintf("open-appender/%s/%s", k, iface)
+			if what := openAppenderScenario(f.Out, k, v2); what != "" {
+				meta.GoViol = append(meta.GoViol, gallina.GoViolation{ID: name, Shape: "open-appender-compaction-lost-sample", What: name + ": " + what})
+			}
+			meta.Hit("go-scenario-open-appender")
+		}
+	}
 	cf.Flush()
 	meta.Write(f.Out)
+}
+
+// openAppenderScenario: series s0 has (float) samples at 100 and 200, s1 at 2500; an appender is
+// opened and appends a sample of the given kind to the EXISTING series s0 at 2600 (uncommitted);
+// DB.Compact cuts block [100,1000) and truncates the head, which removes every in-memory chunk of
+// s0; Commit; the sample at 2600 must be returned by a query, before and after a restart.
+func openAppenderScenario(out string, k tsdbx.SampleKind, v2 bool) string {
+	dir, err := os.MkdirTemp(out, "dbgo")
+	if err != nil {
+		panic(err)
+	}
+	defer os.RemoveAll(dir)
+	d, err := tsdbx.Open(dir, tsdbx.Options{BlockRange: blockRange, SamplesPerChunk: 1 << 20})
+	if err != nil {
+		panic(err)
+	}
+	defer func() { d.Close() }()
+	for _, q := range []tsdbx.AppendReq{{Labels: lbl(0), T: 100, V: 1}, {Labels: lbl(0), T: 200, V: 2}, {Labels: lbl(1), T: 2500, V: 3}} {
+		if res, err := d.Tx([]tsdbx.AppendReq{q}, true); err != nil || res[0] != tsdbx.OK {
+			return fmt.Sprintf("setup append failed: %v %v", res, err)
+		}
+	}
+	otx := d.Begin(v2)
+	if err := otx.Append(lbl(0), 2600, 4, k); err != nil {
+		return fmt.Sprintf("Append returned %v", err)
+	}
+	if err := d.Compact(); err != nil {
+		return fmt.Sprintf("Compact returned %v", err)
+	}
+	if len(d.Blocks()) != 1 {
+		return fmt.Sprintf("expected one block after the compaction, got %d", len(d.Blocks()))
+	}
+	if err := otx.Commit(); err != nil {
+		return fmt.Sprintf("Commit returned %v", err)
+	}
+	check := func(when string) string {
+		got, err := d.SampleTimes(math.MinInt64, math.MaxInt64, tsdbx.MatchEq("a", "s0"))
+		if err != nil {
+			return fmt.Sprintf("query %s: %v", when, err)
+		}
+		ts := got[lblName(0)]
+		if len(ts) != 3 || ts[0] != 100 || ts[1] != 200 || ts[2] != 2600 {
+			return fmt.Sprintf("%s: series s0 returns timestamps %v, want [100 200 2600] (the sample committed after the compaction is lost)", when, ts)
+		}
+		return ""
+	}
+	if w := check("after Commit"); w != "" {
+		return w
+	}
+	if err := d.Reopen(); err != nil {
+		return fmt.Sprintf("Close/Open returned %v", err)
+	}
+	return check("after restart")
 }
